@@ -557,6 +557,8 @@ def set_data_dependent_options(args):
 
     args.resolve_ambiguous = 'monoexon_and_fsm' if args.fl_data else 'default'
     args.requires_polya_for_construction = False
+    # without --read_group every experiment that has several files is grouped by file name (decided per experiment, see process_sample)
+    args.read_group_by_number_of_files = args.read_group is None
     if args.read_group is None and args.input_data.has_replicas():
         args.read_group = "file_name"
     args.use_technical_replicas = args.read_group == "file_name"
